@@ -14,22 +14,23 @@ def sh(cmd, cwd=None, env=None, timeout=900):
     return p.returncode, p.stdout + p.stderr
 
 def evaluate(patch, demo):
-    wt = tempfile.mkdtemp(prefix="seedwt_"); os.rmdir(wt)
-    sh(f"git -C /repo worktree add -q {wt} HEAD")
+    """Apply the patch to a scratch copy of /repo's working tree (outside /repo and /verif), run suite, demo, checks."""
+    wt = tempfile.mkdtemp(prefix="seedwt_")
     res = {}
     try:
-        rc, o = sh(f"git -C {wt} apply {patch}")
+        sh(f"cd /repo && tar --exclude=.git --exclude=__pycache__ -cf - . | tar -xf - -C {wt}")
+        rc, o = sh(f"patch -p1 -s -d {wt} -i {patch}")
         res["applies"] = rc == 0
         if rc != 0:
             res["apply_error"] = o[-300:]; return res
         rc, o = sh("/venv/bin/python -m pytest -q -p no:cacheprovider 2>&1 | tail -3", cwd=wt, env={"PYTHONPATH": wt})
-        res["suite"] = [l for l in o.strip().splitlines() if "passed" in l or "failed" in l][-1:] 
+        res["suite"] = [l for l in o.strip().splitlines() if "passed" in l or "failed" in l][-1:]
         res["suite_passes"] = "306 passed" in o
         rc0, _ = sh(f"/venv/bin/python {demo}", cwd="/tmp", env={"PYTHONPATH": "/repo"})
         rc1, o1 = sh(f"/venv/bin/python {demo}", cwd="/tmp", env={"PYTHONPATH": wt})
         res["demo_exit_on_original"] = rc0; res["demo_exit_with_change"] = rc1
         ev = tempfile.mkdtemp(prefix="seedev_")
-        rc, o = sh(f"/venv/bin/python -m sa.check all --repo {wt}", cwd="/verif", env={"SA_EVIDENCE_DIR": ev})
+        rc, o = sh(f"/venv/bin/python -m sa.check all --repo {wt}", cwd="/verif", env={"SA_EVIDENCE_DIR": ev, "PYTHONHASHSEED": "0"})
         shutil.rmtree(ev, ignore_errors=True)
         res["checks_reporting_violation"] = sorted({l.split("property=")[1].split()[0] for l in o.splitlines() if l.startswith("VIOLATION")})
         res["analysis_errors"] = [l for l in o.splitlines() if l.startswith("ANALYSIS-ERROR")][:5]
@@ -42,8 +43,14 @@ def evaluate(patch, demo):
                 reps.append(key)
         res["reports"] = [r.replace(wt, "<tree>") for r in reps[:6]]
     finally:
-        sh(f"git -C /repo worktree remove --force {wt}"); sh("git -C /repo worktree prune")
+        shutil.rmtree(wt, ignore_errors=True)
     return res
+
+
+def _eval_named(name):
+    d = f"{SEEDED}/{name}"
+    return name, evaluate(f"{d}/patch.diff", f"{d}/demo.py")
+
 
 def main():
     mode = sys.argv[1]
@@ -66,16 +73,18 @@ def main():
                 json.dump(meta, open(f"{d}/meta.json", "w"), indent=1)
     ks = "123" if mode == "import" else "345"
     todo = sorted(os.listdir(SEEDED)) if mode == "rerun" else [f"{p}-{k}" for p in sys.argv[2:] for k in ks if os.path.isdir(f"{SEEDED}/{p}-{k}")]
-    for name in todo:
+    from concurrent.futures import ProcessPoolExecutor
+
+    todo = [n for n in todo if os.path.exists(f"{SEEDED}/{n}/patch.diff")]
+    with ProcessPoolExecutor(max_workers=8) as ex:
+        results = list(ex.map(_eval_named, todo))
+    for name, r in results:
         d = f"{SEEDED}/{name}"
-        if not os.path.exists(f"{d}/patch.diff"):
-            continue
         meta = json.load(open(f"{d}/meta.json"))
-        r = evaluate(f"{d}/patch.diff", f"{d}/demo.py")
         ok = r.get("suite_passes") and r.get("demo_exit_on_original") == 0 and r.get("demo_exit_with_change") not in (0, None)
         meta["confirmed"] = bool(ok)
         meta["what_i_ran"] = {
-            "apply": "git worktree add <scratch> HEAD; git -C <scratch> apply patch.diff",
+            "apply": "copy of /repo working tree in <scratch> (outside /repo and /verif); patch -p1 -d <scratch> -i patch.diff",
             "suite": "cd <scratch> && PYTHONPATH=<scratch> /venv/bin/python -m pytest -q -p no:cacheprovider -> " + " ".join(r.get("suite", [])),
             "demo_on_original": f"PYTHONPATH=/repo /venv/bin/python demo.py -> exit {r.get('demo_exit_on_original')}",
             "demo_with_change": f"PYTHONPATH=<scratch> /venv/bin/python demo.py -> exit {r.get('demo_exit_with_change')}",
@@ -84,6 +93,8 @@ def main():
         meta["detected_by_checks"] = r.get("checks_reporting_violation", [])
         meta["target_property_detected"] = meta["property"] in r.get("checks_reporting_violation", [])
         meta["reports"] = r.get("reports", [])
+        if "first_contact" not in meta and mode != "rerun":
+            meta["first_contact"] = {"checker_commit": os.popen("git -C /verif rev-parse --short HEAD").read().strip(), "detected_by_checks": meta["detected_by_checks"], "target_property_detected": meta["target_property_detected"]}
         meta["analysis_errors"] = r.get("analysis_errors", [])
         json.dump(meta, open(f"{d}/meta.json", "w"), indent=1)
         print(f"{name}: confirmed={ok} detected_in={meta['detected_by_checks']} target={meta['target_property_detected']} errs={len(meta['analysis_errors'])}")
